@@ -368,67 +368,151 @@ def solve_loops_on_step(ctx):
                   'the collapse loop re-enters on %s rather than on (self._collapse and a non-empty Collapse())' % T.show(tt), f, w)
 
 
+def _final_attr_cases(ctx, f, attr):
+    """[(literals, leaf, path)] for the final value of self.<attr> over all normal paths of f;
+    literals = path conditions + conditions of conditional expressions, as (term, truth)"""
+    sn = selfname_of(f)
+
+    def rel(n):
+        return isinstance(n, ast.Attribute) and n.attr in ('_maxiter', '_maxfun')
+    out = []
+    for p in enumerate_paths(f.node, relevant=rel, unroll=(0, 1)):
+        if p.exit == 'raise':
+            continue
+        b = T.Builder()
+        lits = []
+        for e in p.events:
+            if e[0] == 'cond':
+                lits.append((T.simp(b.t(e[1])), e[2]))
+            elif e[0] == 'stmt':
+                st = e[1]
+                if isinstance(st, ast.AugAssign) and is_self_attr(st.target, None, sn):
+                    cur = b.t(st.target)
+                    v = b.t(st.value)
+                    if isinstance(st.op, ast.Add):
+                        b.env['%s.%s' % (sn, st.target.attr)] = T.padd(cur, v)
+                    elif isinstance(st.op, ast.Sub):
+                        b.env['%s.%s' % (sn, st.target.attr)] = T.padd(cur, T.pneg(v))
+                    else:
+                        b.env['%s.%s' % (sn, st.target.attr)] = ('opaque', unparse(st))
+                else:
+                    b.exec_stmt(st)
+        final = b.env.get('%s.%s' % (sn, attr))
+        if final is None:
+            out.append((tuple(lits), None, p))
+            continue
+        for cl, leaf in T.cases(T.simp(final)):
+            out.append((tuple(lits) + cl, leaf, p))
+    ctx.stats['paths_enumerated'] += len(out)
+    return out
+
+
+def _lit_says(lits, term, truth):
+    return any(t_ == term and tr == truth for t_, tr in lits)
+
+
+def _is_none_fact(lits, name):
+    """do the literals establish `name is None` ?"""
+    n = ('name', name)
+    return _lit_says(lits, T.mk_cmp('is', n, ('const', None)), True) or _lit_says(lits, T.mk_cmp('isnot', n, ('const', None)), False) or \
+        _lit_says(lits, T.mk_cmp('==', n, ('const', None)), True)
+
+
+def _truthy(lits, name):
+    v = [tr for t_, tr in lits if t_ == ('name', name)]
+    return v[-1] if v else None
+
+
 @rule('C05.f', min_instances=6)
 def limit_bookkeeping(ctx):
-    """new=True offsets _maxiter by generations and _maxfun by evaluations; the '*' sentinel resolves likewise"""
+    """new=True offsets _maxiter by generations and _maxfun by evaluations and stores the '*' sentinel exactly when the limit is None; '*' and None resolve to default (+ current count)"""
     f = ctx.func(AS + '.SetEvaluationLimits')
     sn = selfname_of(f)
-    pair = {'_maxiter': 'generations', '_maxfun': 'evaluations'}
-    seen = set()
-    for st in stmts_of(f.node):
-        if isinstance(st, ast.AugAssign) and is_self_attr(st.target, None, sn) and st.target.attr in pair:
-            a = st.target.attr
-            g = guards_of(st, stop=f.node)
-            under_new = any(isinstance(x, ast.Name) and x.id == 'new' and truth for x, truth, _ in g)
-            good = isinstance(st.op, ast.Add) and is_self_attr(st.value, pair[a], sn) and under_new
-            ctx.check(good, 'SetEvaluationLimits#' + a, '%s += self.%s under new' % (a, pair[a]),
-                      'with new=True the limit %s is offset by %s (expected + self.%s, only when new)' % (a, unparse(st.value), pair[a]), f, st)
-            seen.add(a)
-        if isinstance(st, ast.Assign) and len(st.targets) == 1 and is_self_attr(st.targets[0], None, sn) \
-                and st.targets[0].attr in pair and const_value(st.value) == '*':
-            g = guards_of(st, stop=f.node)
-            under_new = any(isinstance(x, ast.Name) and x.id == 'new' and truth for x, truth, _ in g)
-            ctx.check(under_new, 'SetEvaluationLimits#' + st.targets[0].attr + '*', 'sentinel stored only under new',
-                      'the "*" sentinel is stored outside the new=True branch', f, st)
-    ctx.need(seen == set(pair), 'SetEvaluationLimits: offsets found for %s only' % sorted(seen))
-    # plain assignment of the given limits
-    first = {}
-    for st in f.node.body:
-        if isinstance(st, ast.Assign) and len(st.targets) == 1 and is_self_attr(st.targets[0], None, sn) and st.targets[0].attr in pair:
-            first.setdefault(st.targets[0].attr, st)
-    for a, par in (('_maxiter', 'generations'), ('_maxfun', 'evaluations')):
-        ctx.need(a in first, 'no unconditional store to %s' % a)
-        v = first[a].value
-        names = [n.id for n in ast.walk(v) if isinstance(n, ast.Name)]
-        other = 'evaluations' if par == 'generations' else 'generations'
-        ctx.check(par in names and other not in names, 'SetEvaluationLimits#' + a + '=', '%s <- %s' % (a, par),
-                  '%s is set from %s' % (a, unparse(v)), f, first[a])
-    # _SetEvaluationLimits
+    S = ('name', sn)
+    for attr, param, counter, other, kw in (('_maxiter', 'generations', 'generations', 'evaluations', 'maxiter'),
+                                           ('_maxfun', 'evaluations', 'evaluations', 'generations', 'maxfun')):
+        given = [('name', param), ('sub', ('name', 'kwds'), ('const', kw))]
+        cs = _final_attr_cases(ctx, f, attr)
+        ctx.need(cs, 'SetEvaluationLimits: no path stores %s' % attr)
+        bad = None
+        n_new = n_plain = n_star = 0
+        for lits, leaf, p in cs:
+            if leaf is None:
+                bad = bad or ('a path leaves %s unset' % attr, p)
+                continue
+            newv = _truthy(lits, 'new')
+            if newv is None:
+                bad = bad or ('the value of %s does not depend on `new` on path %s' % (attr, p.describe(4)), p)
+                continue
+            if not newv:
+                n_plain += 1
+                if leaf not in given:
+                    bad = bad or ('without new=True %s becomes %s instead of the given limit' % (attr, T.show(leaf)), p)
+                continue
+            if leaf == ('const', '*'):
+                n_star += 1
+                if not _is_none_fact(lits, param):
+                    bad = bad or ('with new=True the "*" (use-default) sentinel is stored for %s although the given limit is not None '
+                                  '(a limit of 0 is silently replaced by the default budget)' % attr, p)
+                continue
+            n_new += 1
+            want = [T.simp(T.padd(g, ('attr', S, counter))) for g in given]
+            if leaf not in want:
+                bad = bad or ('with new=True %s becomes %s, expected the given limit + self.%s' % (attr, T.show(leaf), counter), p)
+        ctx.need(bad or (n_new and n_star and n_plain), 'SetEvaluationLimits: cases for %s not recognised (new=%d star=%d plain=%d)' % (attr, n_new, n_star, n_plain))
+        if bad:
+            ctx.bad('SetEvaluationLimits#' + attr, bad[0], f, f.node, statement='%s bookkeeping' % attr)
+        else:
+            ctx.ok('SetEvaluationLimits#' + attr, '%d cases: plain -> given limit; new -> limit + self.%s; "*" iff the limit is None' % (len(cs), counter), f, f.node)
+    # _SetEvaluationLimits: None -> default ; "*" -> default + current count ; anything else untouched
     g = ctx.func(AS + '._SetEvaluationLimits')
     sn = selfname_of(g)
-    scale = {'_maxiter': 'iterscale', '_maxfun': 'evalscale'}
-    found = 0
-    for st in stmts_of(g.node):
-        if isinstance(st, ast.Assign) and len(st.targets) == 1 and is_self_attr(st.targets[0], None, sn) and st.targets[0].attr in pair:
-            a = st.targets[0].attr
-            gs = guards_of(st, stop=g.node)
-            ctx.need(gs, 'store to %s in _SetEvaluationLimits is unguarded' % a)
-            gt = t(gs[0][0])
-            vt = T.show(t(st.value))
-            is_star = '*' in T.show(gt) and gs[0][1]
-            is_none = gt == T.mk_cmp('is', ('attr', ('name', sn), a), ('const', None)) and gs[0][1]
-            mention_self = a in T.show(gt)
-            good = mention_self and scale[a] in vt and scale['_maxfun' if a == '_maxiter' else '_maxiter'] not in vt
-            if is_star:
-                good = good and ('%s.%s' % (sn, pair[a])) in vt and ('%s.%s' % (sn, pair['_maxfun' if a == '_maxiter' else '_maxiter'])) not in vt
-            elif is_none:
-                good = good and 'generations' not in vt and 'evaluations' not in vt
+    S = ('name', sn)
+    for attr, scale, otherscale, counter in (('_maxiter', 'iterscale', 'evalscale', 'generations'), ('_maxfun', 'evalscale', 'iterscale', 'evaluations')):
+        cur = ('attr', S, attr)
+        cs = _final_attr_cases(ctx, g, attr)
+        seen = set()
+        bad = None
+        for lits, leaf, p in cs:
+            is_none = _lit_says(lits, T.mk_cmp('is', cur, ('const', None)), True)
+            is_star = _lit_says(lits, T.mk_cmp('==', cur, ('const', '*')), True)
+            if leaf is None or leaf == cur:
+                if is_none or is_star:
+                    bad = bad or ('%s stays unresolved (None/"*") on a path' % attr, p)
+                seen.add('keep')
+                continue
+            sh = T.show(leaf)
+            if is_none:
+                seen.add('none')
+                if scale not in sh or otherscale in sh or 'generations' in sh or 'evaluations' in sh:
+                    bad = bad or ('default for %s resolves to %s' % (attr, sh), p)
+            elif is_star:
+                seen.add('star')
+                counter_t = ('attr', S, counter)
+                rest = T.simp(T.padd(leaf, T.pneg(counter_t)))
+                rs = T.show(rest)
+                if scale not in rs or otherscale in rs or 'generations' in rs or 'evaluations' in rs:
+                    bad = bad or ('the "*" sentinel for %s resolves to %s, expected default + self.%s' % (attr, sh, counter), p)
             else:
-                ctx.undecided('unknown guard %s for %s' % (T.show(gt), a))
-            ctx.check(good, '_SetEvaluationLimits#%s%s' % (a, '*' if is_star else ''),
-                      '%s resolves to %s' % (a, vt), 'default for %s under %s resolves to %s' % (a, T.show(gt), vt), g, st)
-            found += 1
-    ctx.need(found >= 4, '_SetEvaluationLimits: expected 4 default stores, found %d' % found)
+                bad = bad or ('%s is overwritten with %s although it was set' % (attr, sh), p)
+        ctx.need(bad or {'none', 'star'} <= seen, '_SetEvaluationLimits: cases for %s not recognised (%s)' % (attr, sorted(seen)))
+        if bad:
+            ctx.bad('_SetEvaluationLimits#' + attr, bad[0], g, g.node, statement='%s default resolution' % attr)
+        else:
+            ctx.ok('_SetEvaluationLimits#' + attr, 'None -> N*nPop*%s ; "*" -> that + self.%s ; otherwise kept' % (scale, counter), g, g.node)
+    # overrides only change the scale factors
+    base = ctx.cls(AS)
+    for m in ctx.model.overriders(base, '_SetEvaluationLimits'):
+        if m is g:
+            continue
+        ctx.touch(m)
+        calls = calls_where(m.node, lambda c: isinstance(c.func, ast.Attribute) and c.func.attr == '_SetEvaluationLimits')
+        body = [s for s in m.node.body if not (isinstance(s, ast.Expr) and isinstance(s.value, ast.Constant))]
+        good = len(calls) == 1 and [unparse(a) for a in calls[0].args] == ['iterscale', 'evalscale'] and \
+            all(isinstance(s, (ast.Expr, ast.Return)) for s in body)
+        k = ctx.model.enclosing_class(m)
+        ctx.check(good, '%s._SetEvaluationLimits' % k.name, 'delegates to the base with (iterscale, evalscale)',
+                  '%s._SetEvaluationLimits no longer just forwards its scale factors' % k.name, m, m.node)
 
 
 @rule('C05.i', min_instances=3)
